@@ -4,7 +4,7 @@ Writes seeded/RESULTS.md. Usage: tools/run_seeds.py [ids...]   (never run while 
 import json, os, subprocess, sys
 V = os.path.dirname(os.path.dirname(os.path.abspath(__file__)))
 ids = sys.argv[1:] or sorted(d for d in os.listdir(os.path.join(V, "seeded")) if os.path.isdir(os.path.join(V, "seeded", d)))
-EXTRA = {"C15-3": ["C01"], "C08-2": ["C09"], "C08-4": ["C09"], "C15-5": ["C01"], "C04-6": ["C01"], "C01-5": ["C11", "C08"]}
+EXTRA = {"C15-3": ["C01"], "C08-2": ["C09"], "C08-4": ["C09"], "C15-5": ["C01"], "C04-6": ["C01"], "C01-5": ["C11", "C08"], "C09-11": ["C07"], "C11-11": ["C08"], "C15-8": ["C06"]}
 rows = []
 # the evidence files describe the unchanged tree: keep them out of the way while /repo is being mutated
 import shutil, tempfile
